@@ -14,7 +14,7 @@ func init() {
 	// the streamed-body and in-place-normalisation rules are shared with C14 / C02: their
 	// violations deliver bytes of one request as part of another, which is C01's last clause
 	register("C01", c01Fold, c01Dispatch, c01Framers, func(e *Env) { serveLoop(e, "C01") }, c03Limit("C01.limit"),
-		c02Retry, c14Chunk, c14Bound, c14Prefetch, c14Drain, c14EOF, c03HexWidth, c13Release, c13Len, c13Remainder, c13Window, c04Slots, c17Fill)
+		c02Retry, c14Chunk, c14Bound, c14Prefetch, c14Drain, c14EOF, c03HexWidth, c13Release, c13Len, c13Remainder, c13Window, c04Slots, c17Fill, c09Pools, c14SkipBound, c14Identity, c18Drain)
 }
 
 const pkgBytestr = Mod + "/internal/bytestr"
@@ -347,12 +347,28 @@ func c01Framers(e *Env) {
 	}
 	sort.Slice(parseFns, func(i, j int) bool { return parseFns[i].Decl.Pos() < parseFns[j].Decl.Pos() })
 	r.Floor(rule, len(parseFns), 2, "header-scan loops comparing keys with the framing constants (request and response side)")
+	// reachesWriter: a non-writer function whose body (transitively, two levels) calls a writer
+	var reachesWriter func(f *types.Func, depth int) bool
+	reachesWriter = func(f *types.Func, depth int) bool {
+		hd := w.DeclOf(f)
+		if hd == nil || hd.Decl.Body == nil || depth > 2 {
+			return false
+		}
+		hit := false
+		ast.Inspect(hd.Decl.Body, func(n ast.Node) bool {
+			if c, ok := n.(*ast.CallExpr); ok && !hit {
+				if g := calleeOf(hd.Pkg.TypesInfo, c); g != nil && (writers[g.Origin()] || (g.Pkg() == f.Pkg() && g != f && reachesWriter(g, depth+1))) {
+					hit = true
+				}
+			}
+			return !hit
+		})
+		return hit
+	}
 	for _, fi := range parseFns {
-		info := fi.Pkg.TypesInfo
 		fname := w.FuncName(fi.Obj)
-		par := parents(fi.Decl)
 		nW := 0
-		cmpKind := func(cond ast.Expr) string {
+		cmpKind := func(info *types.Info, cond ast.Expr) string {
 			call, ok := unparen(cond).(*ast.CallExpr)
 			if !ok {
 				return ""
@@ -371,58 +387,81 @@ func c01Framers(e *Env) {
 			}
 			return ""
 		}
-		ast.Inspect(fi.Decl.Body, func(n ast.Node) bool {
-			call, ok := n.(*ast.CallExpr)
-			if !ok {
-				return true
-			}
-			f := calleeOf(info, call)
-			if f == nil || !writers[f.Origin()] {
-				return true
-			}
-			loop := enclosing(par, call, func(n ast.Node) bool { _, ok := n.(*ast.ForStmt); return ok })
-			if loop == nil {
-				return true // prologue default / epilogue adjustments
-			}
-			nW++
-			key := fmt.Sprintf("%s:framing-write#%d", fname, nW)
-			kind, notChunked := "", false
-			for p := par[call]; p != nil && p != loop; p = par[p] {
-				is, ok := p.(*ast.IfStmt)
-				if !ok || !within(call, is.Body) {
-					continue
+		// visit classifies the writer calls below root (the scan loop, or a helper's body when
+		// the write was moved into a same-package helper called from the loop); ctxKind/ctxNC
+		// are the guards already established at the helper's call site
+		var visit func(cur *core.FuncInfo, inLoop bool, ctxKind string, ctxNC bool, via string, depth int)
+		visit = func(cur *core.FuncInfo, inLoop bool, ctxKind string, ctxNC bool, via string, depth int) {
+			info := cur.Pkg.TypesInfo
+			par := parents(cur.Decl)
+			ast.Inspect(cur.Decl.Body, func(n ast.Node) bool {
+				call, ok := n.(*ast.CallExpr)
+				if !ok {
+					return true
 				}
-				if k := cmpKind(is.Cond); k != "" && kind == "" {
-					kind = k
+				f := calleeOf(info, call)
+				if f == nil {
+					return true
 				}
-				if be, ok := unparen(is.Cond).(*ast.BinaryExpr); ok && be.Op == token.NEQ {
-					if c, ok := constInt(info, be.Y); ok && c == -1 {
-						if cc, ok := unparen(be.X).(*ast.CallExpr); ok {
-							if g := calleeOf(info, cc); g != nil && g.Name() == "ContentLength" {
-								notChunked = true
+				isW := writers[f.Origin()]
+				isH := !isW && depth < 2 && f.Pkg() == cur.Obj.Pkg() && f != cur.Obj && reachesWriter(f, 0)
+				if !isW && !isH {
+					return true
+				}
+				var stop ast.Node
+				if inLoop {
+					stop = enclosing(par, call, func(n ast.Node) bool { _, ok := n.(*ast.ForStmt); return ok })
+					if stop == nil {
+						return true // prologue default / epilogue adjustments
+					}
+				}
+				kind, notChunked := ctxKind, ctxNC
+				for p := par[call]; p != nil && p != stop; p = par[p] {
+					is, ok := p.(*ast.IfStmt)
+					if !ok || !within(call, is.Body) {
+						continue
+					}
+					if k := cmpKind(info, is.Cond); k != "" && kind == "" {
+						kind = k
+					}
+					if be, ok := unparen(is.Cond).(*ast.BinaryExpr); ok && be.Op == token.NEQ {
+						if c, ok := constInt(info, be.Y); ok && c == -1 {
+							if cc, ok := unparen(be.X).(*ast.CallExpr); ok {
+								if g := calleeOf(info, cc); g != nil && g.Name() == "ContentLength" {
+									notChunked = true
+								}
 							}
 						}
 					}
 				}
-			}
-			pos := w.Pos(call.Pos())
-			desc := "framing-length write in the scan loop is guarded by a framing-name comparison"
-			switch kind {
-			case "":
-				r.Fail(rule, key, pos, desc, "call "+types.ExprString(call)+" changes contentLength for a header whose name was not compared with Content-Length/Transfer-Encoding: another header influences where the message ends")
-			case "CL":
-				r.Check(notChunked, rule, key, pos, desc+" and by `ContentLength() != -1`", "Content-Length value is applied even when Transfer-Encoding: chunked was already seen (TE must win)")
-			case "TE":
-				ok := false
-				if len(call.Args) == 1 {
-					if c, isC := constInt(info, call.Args[0]); isC && c == -1 {
-						ok = true
+				if isH {
+					if hd := w.DeclOf(f); hd != nil {
+						visit(hd, false, kind, notChunked, via+"→"+f.Name(), depth+1)
 					}
+					return true
 				}
-				r.Check(ok, rule, key, pos, desc+" and stores the chunked sentinel -1", "Transfer-Encoding branch stores "+types.ExprString(call)+" instead of the constant -1")
-			}
-			return true
-		})
+				nW++
+				key := fmt.Sprintf("%s:framing-write#%d", fname, nW)
+				pos := w.Pos(call.Pos())
+				desc := "framing-length write in the scan loop" + via + " is guarded by a framing-name comparison"
+				switch kind {
+				case "":
+					r.Fail(rule, key, pos, desc, "call "+types.ExprString(call)+" changes contentLength for a header whose name was not compared with Content-Length/Transfer-Encoding: another header influences where the message ends")
+				case "CL":
+					r.Check(notChunked, rule, key, pos, desc+" and by `ContentLength() != -1`", "Content-Length value is applied even when Transfer-Encoding: chunked was already seen (TE must win)")
+				case "TE":
+					ok := false
+					if len(call.Args) == 1 {
+						if c, isC := constInt(info, call.Args[0]); isC && c == -1 {
+							ok = true
+						}
+					}
+					r.Check(ok, rule, key, pos, desc+" and stores the chunked sentinel -1", "Transfer-Encoding branch stores "+types.ExprString(call)+" instead of the constant -1")
+				}
+				return true
+			})
+		}
+		visit(fi, true, "", false, "", 0)
 		r.Unit("%s: %s — %d framing-length writes inside the scan loop", rule, fname, nW)
 		r.Floor(rule, nW, 3, "framing-length writes in the scan loop of "+fname)
 	}
